@@ -6,10 +6,11 @@ import random
 import e2e
 from core import Family, q, unq, run_model, run_impl, cmp_tree
 
-GEN_FILES = ["StateSpaceGlue.v", "IndexersGen.v"]
+GEN_FILES = ["StateSpaceGlue.v", "IndexersGen.v", "FilterMask.v"]
+RUNNERS = ["fmask_runner"]
 TRUSTED = e2e.TRUSTED + [
     "Model/StateSpace.v (boolean-mask selection in row-major order; any/cumulative ranks/fill value; repeat) is hand-written: tied by family indexers_and_segments",
-    "create_filter_mask (productmap of the logical_and-aggregated filter DAG) is covered through the whole-model family state_space_vs_spec and C19's product-map theorem",
+    "translator/py2coq_fmask.py and Model/PyVocab.v: the dict vocabulary of Gen/FilterMask.v, tied by family filter_mask_vs_regenerated (bin/fmask_runner); that the concatenated filter (dags) computes the Spec's filters is judged by the same family (the runner evaluates the filters with the Spec)",
 ]
 ASSUMPTIONS = ["filters over discrete variables and the period only (C17's quantifier)"]
 
@@ -103,10 +104,67 @@ def fam_models(rng, n):
     return fam
 
 
+def fam_filter_mask(rng, n):
+    fam = Family("filter_mask_vs_regenerated",
+                 "random whole models with 1-2 filters over discrete states/choices and the period, every period, subset = None "
+                 "and subset = the sparse variables in shuffled order, jit on and off: lcm.state_space.create_filter_mask vs the "
+                 "regenerated create_filter_mask (Gen/FilterMask.v) extracted to OCaml, on the inputs lcm's own reads off the "
+                 "processed model; the filter itself is evaluated by the Spec; non-trivial = >= 2 axes and some entry False")
+    cases = e2e.gen_cases(rng, n, fn="filter_mask", features=[{"filter"}, {"period_filter"}, {"filter", "mixed_discrete_choices"}, {"period_filter", "stochastic"}])
+    wc = []
+    for c in cases:
+        for t in range(c["_mspec"]["n_periods"]):
+            w = e2e.wire(c)
+            w.update(period=t, subset=None, jit=rng.random() < 0.3)
+            wc.append(w)
+    ires = run_impl(wc)
+    # a second pass with the subset given explicitly, in another order than model.grids
+    extra = []
+    for w, i in zip(wc, ires):
+        if isinstance(i, dict) and "error" not in i and "no_filters" not in i and rng.random() < 0.5:
+            names = [n_ for n_, flags in i["inputs"]["variable_info"] if flags[6]]
+            rng.shuffle(names)
+            w2 = dict(w)
+            w2["subset"] = names
+            extra.append(w2)
+    wc = wc + extra
+    ires = ires + run_impl(extra)
+    mc, keep = [], []
+    for w, i in zip(wc, ires):
+        if isinstance(i, dict) and ("error" in i or "no_filters" in i):
+            keep.append(None)
+            continue
+        m = dict(w)
+        m.update(i["inputs"])
+        keep.append(len(mc))
+        mc.append(m)
+    mres = run_model(mc, runner="fmask_runner")
+    for w, i, k in zip(wc, ires, keep):
+        key = {"py": w["py"], "t": w["period"], "subset": w["subset"]}
+        if isinstance(i, dict) and "no_filters" in i:
+            fam.bump("model_without_filters (no mask is built)")
+            continue
+        if k is None:
+            fam.count(key, False)
+            fam.violations.append({"case": w, "impl": i, "what": "create_filter_mask raised: " + str(i.get("detail"))[:200]})
+            continue
+        s = mres[k]
+        fam.count(key, len(i["shape"]) >= 2 and not all(i["data"]))
+        fam.bump(f"axes={len(i['shape'])}")
+        if isinstance(s, dict) and "error" in s:
+            fam.disagreements.append({"case": w, "model": s, "what": "runner error"})
+        elif s["shape"] != i["shape"] or s["data"] != i["data"]:
+            fam.disagreements.append({"case": w, "model": s, "impl": {"shape": i["shape"], "data": i["data"]},
+                                      "what": "create_filter_mask differs from the regenerated definition evaluated with the Spec's filters"})
+        else:
+            fam.exact += 1
+    return fam
+
+
 def run(tier, seed):
     rng = random.Random(seed * 7919 + 17)
     k = 1 if tier == "quick" else 20
-    return [fam_unit(rng, 200 * k), fam_models(rng, 16 * k)]
+    return [fam_unit(rng, 200 * k), fam_models(rng, 16 * k), fam_filter_mask(rng, 10 * k)]
 
 
 def matches_signature(entry, item):
